@@ -177,6 +177,23 @@ mod verif_c10 {
         assert!(ra.is_ok() == rd.is_ok(), "skip_ws_to_eol: different verdicts");
         assert!(same_rest(&a, &d), "skip_ws_to_eol: different remaining input");
     }
+    // skip_while_non_breakz (comments, unknown directives): same count - in characters - and same remaining input as
+    // the default method, on every valid UTF-8 string of at most 4 bytes over a small alphabet with a two-byte character
+    #[kani::proof]
+    #[kani::unwind(9)]
+    fn c10_str_non_breakz_len4() {
+        let buf: [u8; 4] = kani::any();
+        let mut i = 0;
+        while i < 4 {
+            kani::assume(ws_byte(buf[i]) || buf[i] == 0);
+            i += 1;
+        }
+        let s = any_str(&buf);
+        let mut a = StrInput::new(s);
+        let mut d = D(StrInput::new(s));
+        assert!(a.skip_while_non_breakz() == d.skip_while_non_breakz(), "skip_while_non_breakz: different counts");
+        assert!(same_rest(&a, &d), "skip_while_non_breakz: different remaining input");
+    }
     ws_diff!(c10_str_ws_eol_len2, c10_str_blank_len2, 2, 7);
     ws_diff!(c10_str_ws_eol_len3, c10_str_blank_len3, 3, 8);
     ws_diff!(c10_str_ws_eol_len4, c10_str_blank_len4, 4, 9);
